@@ -81,6 +81,12 @@ Definition heading_layout (toks : list ltoken) : bool :=
   && match toks with t :: _ => edge_tok t | [] => false end
   && match rev toks with t :: _ => edge_tok t | [] => false end.
 
+(** the layout without the spaces at its end.  A space of the layout is Go's [time.skip]: at the end
+    of the value it matches the empty run, so a heading (which the parser delivers trimmed) is read under
+    [toks] whenever it is read under [layout_core toks]; [format_date] writes the spaces and the parser's
+    trimming removes them again *)
+Definition layout_core (toks : list ltoken) : list ltoken := rev (drop_space_lits (rev toks)).
+
 (** the layout determines a date: year, month and day all occur *)
 Definition full_layout (toks : list ltoken) : Prop := In Y4 toks /\ In M2 toks /\ In D2 toks.
 
